@@ -88,7 +88,7 @@ def boundaries(text):
 def check_C11(tier, seed):
     out = Outcome("C11", tier, seed)
     tgt = os.path.join(build.WORK, "tgt", "pretty")
-    p = build.cargo_build(os.path.join(build.RUST, "pretty"), tgt)
+    p = build.cargo_build(os.path.join(build.rust_dir(), "pretty"), tgt)
     if p.returncode != 0:
         raise RuntimeError("pretty harness build failed:\n" + p.stdout[-3000:])
     binp = os.path.join(tgt, "debug", "vfpretty")
